@@ -284,9 +284,13 @@ type singleEnv struct {
 // schedule point "append.start" (before it touches the queued block) is a gate
 func newSingleEnv() *singleEnv {
 	conf.IndexWorkers = 1
-	dir, err := os.MkdirTemp("", "hC10-single-")
-	if err != nil {
-		panic(err)
+	// the parent process owns the scratch directory (it removes it also when this process is taken down by the store)
+	dir := os.Getenv("HC10_SINGLE_DIR")
+	if dir == "" {
+		var err error
+		if dir, err = os.MkdirTemp("", "hC10-single-"); err != nil {
+			panic(err)
+		}
 	}
 	se := &singleEnv{dir: dir, gate: make(chan struct{}), done: make(chan struct{}, 64)}
 	verifhook.Set(func(name string) {
